@@ -172,3 +172,148 @@ Proof.
   intros Hl. induction Hl as [|p l Hp Hl IH]; [reflexivity|].
   cbn [concat]. rewrite (utf8_valid_app _ _ Hp). exact IH.
 Qed.
+
+(** ** IncompleteUnicode without the fuel: the scan never needs more than four bytes *)
+Fixpoint inc (rv : str) (i : nat) : bool :=
+  match rv with
+  | [] => false
+  | c :: r =>
+      if isK c then inc r (S i)
+      else if isL2 c then i <? 2
+      else if isL3 c then i <? 3
+      else if isL4 c then i <? 4
+      else false
+  end.
+
+Lemma inc_high rv : forall i, 4 <= i -> inc rv i = false.
+Proof.
+  induction rv as [|c r IH]; intros i Hi; cbn [inc]; [reflexivity|].
+  destruct (isK c); [apply IH; lia|].
+  destruct (isL2 c); [lia|]. destruct (isL3 c); [lia|]. destruct (isL4 c); [lia|reflexivity].
+Qed.
+
+Lemma incomplete_aux_inc fuel : forall rv i, 5 <= i + fuel -> incomplete_aux rv i fuel = inc rv i.
+Proof.
+  induction fuel as [|f IH]; intros rv i Hi.
+  - rewrite inc_high by lia. destruct rv; reflexivity.
+  - destruct rv as [|c r]; [reflexivity|]. cbn [incomplete_aux inc]. unfold isK, isL2, isL3, isL4.
+    destruct (N.eqb (N.land c 192) 128); [apply IH; lia | reflexivity].
+Qed.
+
+Lemma incomplete_unicode_inc s : incomplete_unicode s = inc (rev s) 1.
+Proof. unfold incomplete_unicode. apply incomplete_aux_inc. lia. Qed.
+
+(** the scan stops at the first non-continuation byte *)
+Lemma inc_app l m : forall i, existsb (fun c => negb (isK c)) l = true -> inc (l ++ m) i = inc l i.
+Proof.
+  induction l as [|c l IH]; intros i He; cbn [existsb] in He; [discriminate|].
+  cbn [app inc]. destruct (isK c) eqn:Ek; [|reflexivity].
+  cbn [negb orb] in He. apply IH. exact He.
+Qed.
+
+(** byte classes of the bytes of one encoded character *)
+Lemma cont_isK b : cont b = true -> isK b = true.
+Proof.
+  unfold cont, in_rng. intros Hb.
+  destruct (mask_spec b ltac:(lia)) as [HK _]. rewrite HK. unfold in_rng. lia.
+Qed.
+
+Lemma ascii_class b : N.ltb b 128 = true -> isK b = false.
+Proof.
+  intros Hb. destruct (mask_spec b ltac:(lia)) as [HK _]. rewrite HK. unfold in_rng. lia.
+Qed.
+
+Lemma lead2_class b0 : in_rng 194 223 b0 = true -> isK b0 = false /\ isL2 b0 = true.
+Proof.
+  unfold in_rng. intros Hb.
+  destruct (mask_spec b0 ltac:(lia)) as [HK [H2 _]]. rewrite HK, H2. unfold in_rng. lia.
+Qed.
+
+Lemma lead3_class b0 b1 : lead3 b0 b1 = true ->
+  isK b0 = false /\ isL2 b0 = false /\ isL3 b0 = true /\ isK b1 = true.
+Proof.
+  unfold lead3, cont, in_rng. intros Hb.
+  destruct (mask_spec b0 ltac:(lia)) as [HK [H2 [H3 _]]].
+  destruct (mask_spec b1 ltac:(lia)) as [HK1 _].
+  rewrite HK, H2, H3, HK1. unfold in_rng. lia.
+Qed.
+
+Lemma lead4_class b0 b1 : lead4 b0 b1 = true ->
+  isK b0 = false /\ isL2 b0 = false /\ isL3 b0 = false /\ isL4 b0 = true /\ isK b1 = true.
+Proof.
+  unfold lead4, cont, in_rng. intros Hb.
+  destruct (mask_spec b0 ltac:(lia)) as [HK [H2 [H3 H4]]].
+  destruct (mask_spec b1 ltac:(lia)) as [HK1 _].
+  rewrite HK, H2, H3, H4, HK1. unfold in_rng. lia.
+Qed.
+
+(** the first byte of a valid string is not a continuation byte *)
+Lemma valid_head_notK a0 s : utf8_valid (a0 :: s) = true -> isK a0 = false.
+Proof.
+  intros Hv.
+  destruct (utf8_valid_peel (a0 :: s) ltac:(discriminate) Hv) as [c [r [Heq [Hc _]]]].
+  destruct Hc as [b0 H0 | b0 b1 H0 H1 | b0 b1 b2 H0 H2 | b0 b1 b2 b3 H0 H2 H3];
+    cbn [app] in Heq; injection Heq as -> _.
+  - apply ascii_class. exact H0.
+  - apply lead2_class. exact H0.
+  - apply (lead3_class _ _ H0).
+  - apply (lead4_class _ _ H0).
+Qed.
+
+(** a non-empty proper prefix of one encoded character is reported as incomplete *)
+Lemma is_char_proper_prefix a l :
+  is_char (a ++ l) -> a <> [] -> l <> [] -> incomplete_unicode a = true.
+Proof.
+  intros Hc Ha Hl. rewrite incomplete_unicode_inc.
+  remember (a ++ l) as c eqn:Ec.
+  destruct Hc as [b0 H0 | b0 b1 H0 H1 | b0 b1 b2 H0 H2 | b0 b1 b2 b3 H0 H2 H3].
+  - destruct a as [|a0 [|a1 a]]; [congruence| |]; cbn [app] in Ec; [|discriminate].
+    injection Ec as _ El. congruence.
+  - destruct (lead2_class _ H0) as [HK HL2].
+    destruct a as [|a0 [|a1 [|a2 a]]]; [congruence| | |]; cbn [app] in Ec.
+    + injection Ec as -> _. cbn [rev app inc]. rewrite HK, HL2. reflexivity.
+    + injection Ec as _ _ El. congruence.
+    + discriminate.
+  - destruct (lead3_class _ _ H0) as [HK [HL2 [HL3 HK1]]].
+    destruct a as [|a0 [|a1 [|a2 [|a3 a]]]]; [congruence| | | |]; cbn [app] in Ec.
+    + injection Ec as -> _. cbn [rev app inc]. rewrite HK, HL2, HL3. reflexivity.
+    + injection Ec as -> -> _. cbn [rev app inc]. rewrite HK1, HK, HL2, HL3. reflexivity.
+    + injection Ec as _ _ _ El. congruence.
+    + discriminate.
+  - destruct (lead4_class _ _ H0) as [HK [HL2 [HL3 [HL4 HK1]]]].
+    pose proof (cont_isK _ H2) as HK2.
+    destruct a as [|a0 [|a1 [|a2 [|a3 [|a4 a]]]]]; [congruence| | | | |]; cbn [app] in Ec.
+    + injection Ec as -> _. cbn [rev app inc]. rewrite HK, HL2, HL3, HL4. reflexivity.
+    + injection Ec as -> -> _. cbn [rev app inc]. rewrite HK1, HK, HL2, HL3, HL4. reflexivity.
+    + injection Ec as -> -> -> _. cbn [rev app inc]. rewrite HK2, HK1, HK, HL2, HL3, HL4. reflexivity.
+    + injection Ec as _ _ _ _ El. congruence.
+    + discriminate.
+Qed.
+
+(** ** (3) a prefix of valid text that does not end inside a character is valid *)
+Lemma utf8_complete_prefix_len n : forall a b, length a <= n ->
+  utf8_valid (a ++ b) = true -> incomplete_unicode a = false -> utf8_valid a = true.
+Proof.
+  induction n as [|n IH]; intros a b Hlen Hv Hi.
+  - destruct a; [reflexivity | cbn [length] in Hlen; lia].
+  - destruct a as [|a0 a']; [reflexivity|].
+    destruct (utf8_valid_peel ((a0 :: a') ++ b) ltac:(discriminate) Hv) as [c [r [Heq [Hc Hr]]]].
+    pose proof (is_char_length _ Hc) as Hcl.
+    apply app_eq_app in Heq as [l [[Ha Hr']|[Hc' Hb]]].
+    + rewrite Ha, (is_char_app _ _ Hc).
+      destruct l as [|l0 l']; [reflexivity|].
+      apply (IH _ b).
+      * apply (f_equal (@length N)) in Ha. rewrite app_length in Ha. cbn [length] in *. lia.
+      * rewrite <- Hr'. exact Hr.
+      * rewrite Ha, incomplete_unicode_inc, rev_app_distr, inc_app in Hi.
+        -- rewrite incomplete_unicode_inc. exact Hi.
+        -- apply existsb_exists. exists l0. split; [apply -> in_rev; left; reflexivity|].
+           rewrite Hr' in Hr. cbn [app] in Hr. rewrite (valid_head_notK _ _ Hr). reflexivity.
+    + destruct l as [|l0 l'].
+      * rewrite app_nil_r in Hc'. rewrite <- Hc', <- (app_nil_r c), (is_char_app _ _ Hc). reflexivity.
+      * rewrite Hc' in Hc. rewrite (is_char_proper_prefix _ _ Hc) in Hi; discriminate.
+Qed.
+
+Lemma utf8_complete_prefix a b :
+  utf8_valid (a ++ b) = true -> incomplete_unicode a = false -> utf8_valid a = true.
+Proof. apply (utf8_complete_prefix_len (length a)). lia. Qed.
